@@ -26,13 +26,16 @@ func run(e *harness.Env) {
 	// memory backstop: a runaway parser loop must kill this worker (attributed to the case), not the machine
 	syscall.Setrlimit(syscall.RLIMIT_AS, &syscall.Rlimit{Cur: 6 << 30, Max: 6 << 30})
 	e.Track = true
-	e.Rule = "case = (object tree or operator program, spelling policy, parser). Spaces: leaf = every leaf of the full alphabet " +
-		"(keywords, ints incl. 2^31/2^63 limits, exponent-free reals incl. single-precision extremes, 41 byte strings, 32 names, refs) x 13 contexts x follower x every relevant policy; " +
-		"tree = every tree of depth<=2 (quick) / <=3 (thorough) with <=2 members per container over a reduced leaf alphabet x every relevant policy; " +
-		"deep = depth-4 skeleton, all choice vectors with <=2 (quick) / <=3 (thorough) deviations; " +
-		"prog = every operator program of length<=2 (quick) / <=3 (thorough) over the 70 non-inline-image operators x operand variant x policy; " +
-		"quirk = differential only (both parsers accept => equal value). Policy = whitespace{sp,min,nl,mix} x comments{off,sep,all} x EOL{LF,CR,CRLF} x " +
-		"strings{lit,esc,oct3,octs,hexU,hexL,hexodd,hexws,cont,raweol} x names{raw,esc,escl}; dimensions that cannot change the bytes of a case are pinned to their default. " +
+	e.Rule = "case = (object tree or operator program, spelling policy, parser in {core.Parser.ParseObject, contentstream.Parser.Parse}); references only with the document parser. " +
+		"Spaces (each a full nested product unless said otherwise): leaf = every leaf of the full alphabet (3 keywords, 11 ints incl. the 2^31 and 2^63 limits and signed/zero-padded forms, " +
+		"16 exponent-free reals incl. the single-precision extremes, 41 byte strings, 32 names, 5 references) x " + fmt.Sprint(len(contexts)) + " contexts (top level, array/dict positions, nested, dict key) x follower {none,int,name,string} " +
+		"(quick: followers only at top level) x policy; tree = every tree of depth<=2 with <=2 members per container over 13 leaves x follower {none,int} x policy, thorough adds every tree of depth 3 over 6 leaves x policy; " +
+		"deep = depth-4 skeleton with 3 leaf slots over the full alphabet, all choice vectors with <=2 (quick) / <=3 (thorough) deviations from the plain case; " +
+		"prog = every operator program of length<=2 over the 70 operators of Annex A without BI/ID/EI x 3 operand variants x policy, thorough adds every program of length 3 x 1 rotating variant x 3 whitespace/comment policies x {lit,hexodd}; " +
+		"big = 6 long structures (1500-member array over all leaves, 400-key dict, 9000-byte string + 119-byte name, 3000 one-digit ints ending in references, nesting depth 40) x policy; " +
+		fmt.Sprintf("quirk = %d mostly illegal operand spellings x 3 tails, differential only (both parsers accept => equal value). ", len(quirks)) +
+		"Policy = whitespace{sp,min,nl,mix of all six white bytes} x comments{off,sep,all=also inside n g R} x EOL{LF,CR,CRLF} x " +
+		"strings{lit,esc,oct3,octs,hexU,hexL,hexodd,hexws,cont,raweol} x names{raw,esc,escl}; a dimension that cannot change the bytes of a case is pinned to its default; comments are combined with strings{lit,hexU} x names{raw,esc} only. " +
 		"distinct = distinct descriptors; non-trivial = anything but a leaf at top level in the default policy"
 	e.Assumptions = []string{
 		"the check's serializer emits only syntax that ISO 32000-1 7.2/7.3 declares legal, with the meaning the check expects",
@@ -43,7 +46,7 @@ func run(e *harness.Env) {
 	for _, sp := range []struct {
 		name string
 		f    func(*harness.Env)
-	}{{"leaf", leafSpace}, {"tree", treeSpace}, {"prog", progSpace}, {"deep", deepSpace}, {"quirk", quirkSpace}} {
+	}{{"leaf", leafSpace}, {"tree", treeSpace}, {"prog", progSpace}, {"deep", deepSpace}, {"big", bigSpace}, {"quirk", quirkSpace}} {
 		if only == "" || only == sp.name {
 			sp.f(e)
 		}
@@ -680,4 +683,72 @@ func deepSpace(e *harness.Env) {
 			runCS(ctxReporter{c, e}, desc, t, fn, p, "cs:deep")
 		}
 	})
+}
+
+// ---- space "big": long tokens and long containers (bufio refills inside tokens, lookahead across buffer edges) ------
+
+func bigTrees() []*node {
+	leaves := allLeaves()
+	var many, noref []*node
+	for i := 0; i < 1500; i++ {
+		l := leaves[(i*7+i/len(leaves))%len(leaves)]
+		if len(l.s) > 64 {
+			l = nInt(fmt.Sprint(i))
+		}
+		many = append(many, l)
+		if l.k != kRef {
+			noref = append(noref, l)
+		}
+	}
+	var keys [][]byte
+	var vals []*node
+	for i := 0; i < 400; i++ {
+		keys = append(keys, []byte(fmt.Sprintf("Key %d#", i)))
+		vals = append(vals, noref[i])
+	}
+	long := make([]byte, 9000)
+	for i := range long {
+		long[i] = byte(i*7 + i/256)
+	}
+	ints := make([]*node, 3000)
+	for i := range ints {
+		ints[i] = nInt(fmt.Sprint(i % 10))
+	}
+	ints[2997], ints[2998], ints[2999] = nRef(1, 0), nInt("5"), nRef(2, 0)
+	nest := nInt("1")
+	for i := 0; i < 40; i++ {
+		if i%2 == 0 {
+			nest = nArr(nest)
+		} else {
+			nest = nDict([][]byte{kK}, nest)
+		}
+	}
+	mk := func(t *node, id string) *node { t.id = id; return t }
+	return []*node{
+		mk(nArr(many...), "arr1500-all-leaves"),
+		mk(nArr(noref...), "arr-all-leaves-noref"),
+		mk(nDict(keys, vals...), "dict400"),
+		mk(nArr(nStr(long, "long9000"), nName(long[1:120], "long119")), "long-string-and-name"),
+		mk(nArr(ints...), "arr3000-digits-and-refs"),
+		mk(nest, "nest40"),
+	}
+}
+
+func bigSpace(e *harness.Env) {
+	for _, t := range bigTrees() {
+		f := treeStats(t)
+		base := "space=big t=" + t.id + " " + featDesc(f)
+		for _, p := range allPolicies(f, wsOpts, cmtOpts, eolOpts, []string{"lit", "esc", "octs", "hexU", "hexodd", "hexws", "cont"}, []string{"raw", "esc"}) {
+			pd := base + " follow=int " + p.desc()
+			if d := pd + " parser=core"; e.Own(d) {
+				runCore(e, d, true, t, followers["int"], p, "core:big")
+			}
+			if f.ref {
+				continue
+			}
+			if d := pd + " parser=cs"; e.Own(d) {
+				runCS(e, d, t, followers["int"], p, "cs:big")
+			}
+		}
+	}
 }
